@@ -921,111 +921,6 @@ Proof.
   rewrite at_rem by (apply Hc || exact Hw). rewrite Hrem. reflexivity.
 Qed.
 
-(* one step of the first loop of shiftXML on the remaining input s, in the state (inside a tag, quote, skipped
-   section): the number of bytes moved and the new state; None where the loop ends (NUL / end of input, or "</" +
-   letters that hash to the element's name) *)
-Definition xml_step (raw : Z) (it : bool) (q sk : Z) (s : list Z) : option (Z * bool * Z * Z) :=
-  match s with
-  | [] => None
-  | c :: t =>
-      if c =? 0 then None
-      else if negb (sk =? 0) then
-        if ((sk =? 1) && prefixb [45; 45; 62] s) || ((sk =? 2) && prefixb [93; 93; 62] s) then Some (3, it, q, 0)
-        else if (sk =? 3) && prefixb [63; 62] s then Some (2, it, q, 0)
-        else Some (1, it, q, sk)
-      else if negb (q =? 0) then Some (1, it, (if c =? q then 0 else q), sk)
-      else if it then Some (1, (if c =? 62 then false else it), (if (c =? 34) || (c =? 39) then c else q), sk)
-      else if c =? 60 then
-        if negb (hd 0 t =? 47) then
-          if prefixb [60; 33; 45; 45] s then Some (4, it, q, 1)
-          else if prefixb [60; 33; 91; 67; 68; 65; 84; 65; 91] s then Some (9, it, q, 2)
-          else if hd 0 t =? 63 then Some (2, it, q, 3)
-          else Some (1, negb (hd 0 t =? 33), q, sk)
-        else
-          match to_hash (map lower (letter_run (tl t))) with
-          | Ok h => if h =? raw then None else Some (2 + len (letter_run (tl t)), it, q, sk)
-          | _ => None
-          end
-      else Some (1, it, q, sk)
-  end.
-
-Lemma xml_body_step raw z it q sk s j it' q' sk' : reads z s -> xml_step raw it q sk s = Some (j, it', q', sk') ->
-  xml_body raw (z, it, q, sk) = Ok (Cont (mv z j, it', q', sk')) /\ 1 <= j <= len s.
-Proof.
-  intros Hr H. destruct s as [|c t]; [discriminate|]. unfold xml_step in H.
-  pose proof (len_nonneg t) as Hlt.
-  assert (Hl1 : len (c :: t) = 1 + len t) by (rewrite len_cons; lia).
-  assert (Hpk : pkr z 0 = Ok c) by (apply (reads_pkr z _ 0 c Hr), peekz_cons_0).
-  assert (Hatp : forall pat, nz_list pat -> at_ z pat = Ok (prefixb pat (c :: t))).
-  { intros pat Hnz. destruct Hr as [Hw Hrem]. rewrite at_rem by assumption. rewrite Hrem. reflexivity. }
-  destruct (c =? 0) eqn:E0; [discriminate|].
-  destruct (negb (sk =? 0)) eqn:Esk.
-  { assert (Hb1 : (if sk =? 1 then at_ z [45; 45; 62] else if sk =? 2 then at_ z [93; 93; 62] else Ok false) =
-                  Ok (((sk =? 1) && prefixb [45; 45; 62] (c :: t)) || ((sk =? 2) && prefixb [93; 93; 62] (c :: t)))).
-    { destruct (sk =? 1) eqn:E1; cbn [andb orb].
-      - rewrite Hatp by (repeat constructor; lia).
-        replace (sk =? 2) with false by (symmetry; b2p; apply Z.eqb_neq; lia). cbn [andb]. rewrite orb_false_r. reflexivity.
-      - destruct (sk =? 2); cbn [andb]; [|reflexivity]. apply Hatp; repeat constructor; lia. }
-    assert (Hb2 : (if sk =? 3 then at_ z [63; 62] else Ok false) = Ok ((sk =? 3) && prefixb [63; 62] (c :: t))).
-    { destruct (sk =? 3); cbn [andb]; [|reflexivity]. apply Hatp; repeat constructor; lia. }
-    assert (Hbody : xml_body raw (z, it, q, sk) =
-              (if ((sk =? 1) && prefixb [45; 45; 62] (c :: t)) || ((sk =? 2) && prefixb [93; 93; 62] (c :: t)) then Ok (Cont (mv z 3, it, q, 0))
-               else if (sk =? 3) && prefixb [63; 62] (c :: t) then Ok (Cont (mv z 2, it, q, 0)) else Ok (Cont (mv z 1, it, q, sk)))).
-    { unfold xml_body. rewrite Hpk. cbn [rbind]. rewrite Esk, E0. cbn [negb andb]. rewrite Hb1. cbn [rbind].
-      destruct (((sk =? 1) && prefixb [45; 45; 62] (c :: t)) || ((sk =? 2) && prefixb [93; 93; 62] (c :: t))); [reflexivity|].
-      rewrite Hb2. cbn [rbind]. destruct ((sk =? 3) && prefixb [63; 62] (c :: t)); reflexivity. }
-    rewrite Hbody.
-    destruct (((sk =? 1) && prefixb [45; 45; 62] (c :: t)) || ((sk =? 2) && prefixb [93; 93; 62] (c :: t))) eqn:Ep3.
-    - injection H as <- <- <- <-. split; [reflexivity|].
-      apply orb_true_iff in Ep3. destruct Ep3 as [Ep3|Ep3]; apply andb_true_iff in Ep3; destruct Ep3 as [_ Ep3]; apply prefixb_len in Ep3;
-        unfold len in Ep3 at 1; cbn [length] in Ep3; lia.
-    - destruct ((sk =? 3) && prefixb [63; 62] (c :: t)) eqn:Ep2.
-      + injection H as <- <- <- <-. split; [reflexivity|].
-        apply andb_true_iff in Ep2; destruct Ep2 as [_ Ep2]; apply prefixb_len in Ep2; unfold len in Ep2 at 1; cbn [length] in Ep2; lia.
-      + injection H as <- <- <- <-. split; [reflexivity|lia]. }
-  apply negb_false_iff, Z.eqb_eq in Esk. subst sk.
-  destruct (negb (q =? 0)) eqn:Eq.
-  { injection H as <- <- <- <-. split; [|lia]. unfold xml_body. rewrite Hpk. cbn [rbind Z.eqb negb andb]. rewrite Eq, E0. reflexivity. }
-  apply negb_false_iff, Z.eqb_eq in Eq. subst q.
-  destruct it.
-  { injection H as <- <- <- <-. split; [|lia]. unfold xml_body. rewrite Hpk. cbn [rbind Z.eqb negb andb]. rewrite E0. cbn [negb]. reflexivity. }
-  destruct (c =? 60) eqn:E60.
-  2:{ injection H as <- <- <- <-. split; [|lia]. unfold xml_body. rewrite Hpk. cbn [rbind Z.eqb negb andb]. rewrite E60, E0. reflexivity. }
-  apply Z.eqb_eq in E60. subst c.
-  assert (Hpk1 : pkr z 1 = Ok (hd 0 t)).
-  { destruct t as [|x t1]; cbn [hd].
-    - destruct (reads_end z [60] Hr) as [Hp _]. change (len [60]) with 1 in Hp. unfold pkr. rewrite Hp. reflexivity.
-    - apply (reads_pkr z _ 1 x Hr), peekz_1. }
-  destruct (negb (hd 0 t =? 47)) eqn:E47.
-  { assert (Hbody : xml_body raw (z, false, 0, 0) =
-              (if prefixb [60; 33; 45; 45] (60 :: t) then Ok (Cont (mv z 4, false, 0, 1))
-               else if prefixb [60; 33; 91; 67; 68; 65; 84; 65; 91] (60 :: t) then Ok (Cont (mv z 9, false, 0, 2))
-               else if hd 0 t =? 63 then Ok (Cont (mv z 2, false, 0, 3)) else Ok (Cont (mv z 1, negb (hd 0 t =? 33), 0, 0)))).
-    { unfold xml_body. rewrite Hpk. cbn [rbind Z.eqb Pos.eqb negb andb]. rewrite Hpk1. cbn [rbind]. rewrite E47.
-      rewrite Hatp by (repeat constructor; lia). cbn [rbind]. destruct (prefixb [60; 33; 45; 45] (60 :: t)); [reflexivity|].
-      rewrite Hatp by (repeat constructor; lia). cbn [rbind]. destruct (prefixb [60; 33; 91; 67; 68; 65; 84; 65; 91] (60 :: t)); reflexivity. }
-    rewrite Hbody.
-    destruct (prefixb [60; 33; 45; 45] (60 :: t)) eqn:P4.
-    { injection H as <- <- <- <-. split; [reflexivity|]. apply prefixb_len in P4. unfold len in P4 at 1; cbn [length] in P4. lia. }
-    destruct (prefixb [60; 33; 91; 67; 68; 65; 84; 65; 91] (60 :: t)) eqn:P9.
-    { injection H as <- <- <- <-. split; [reflexivity|]. apply prefixb_len in P9. unfold len in P9 at 1; cbn [length] in P9. lia. }
-    destruct (hd 0 t =? 63) eqn:E63.
-    { injection H as <- <- <- <-. split; [reflexivity|]. destruct t as [|x t1]; [cbn [hd] in E63; discriminate|]. rewrite !len_cons. pose proof (len_nonneg t1). lia. }
-    injection H as <- <- <- <-. split; [reflexivity|lia]. }
-  apply negb_false_iff, Z.eqb_eq in E47.
-  destruct t as [|x t1]; [cbn [hd] in E47; discriminate|]. simpl tl in H. simpl hd in *. subst x.
-  destruct (letter_run_split t1) as (r1 & Et1 & Hlr & Hr1).
-  set (ls := letter_run t1) in *.
-  destruct (to_hash (map lower ls)) as [h| |] eqn:Eh; try discriminate.
-  destruct (h =? raw) eqn:Ehr; [discriminate|].
-  assert (Ej : j = 2 + len ls) by congruence. assert (Eit : it' = false) by congruence. assert (Eq' : q' = 0) by congruence. assert (Esk' : sk' = 0) by congruence.
-  subst j it' q' sk'. clear H.
-  assert (Hlt1 : len t1 = len ls + len r1) by (rewrite Et1 at 1; apply len_app).
-  assert (Hr' : reads z (60 :: 47 :: ls ++ r1)) by (rewrite <- Et1; exact Hr).
-  split; [|rewrite !len_cons; pose proof (len_nonneg ls); pose proof (len_nonneg r1); lia].
-  rewrite (xml_body_endtag raw z ls r1 Hr' Hlr Hr1). rewrite Eh. cbn [rbind]. rewrite Ehr. reflexivity.
-Qed.
-
 (* p is a loop head of shiftXML reached from position a in the given state, over steps where no delimiter starts
    and over whole regions *)
 Inductive xml_reach (c : cfg) (raw : Z) (d : list Z) : Z -> bool -> Z -> Z -> Z -> Prop :=
